@@ -17,22 +17,12 @@ def endFrom (p : Nat) : List Entry → Nat
   | [] => p
   | e :: r => endFrom (p + e.2.2.length) r
 
-def pcCtx : Pc → Option RCtx
-  | .idle => none
-  | .cont c => some c
-  | .recvPf c => some c
-  | .dispPf c _ _ => some c
-  | .allocSync c => some c
-  | .sendSync c _ => some c
-  | .recvSync c _ => some c
-  | .dispSync c _ _ _ => some c
-
 /-- as long as no read has raised: the completed reads are consecutive from 0, an idle reader stands at their end,
     a running read started there -/
 def Seq (s : St) : Prop :=
   s.raised = [] → chainFrom 0 s.out ∧
     (match pcCtx s.pc with
-     | none => s.realpos = endFrom 0 s.out
+     | none => s.pos = endFrom 0 s.out
      | some c => c.start = endFrom 0 s.out)
 
 theorem chainFrom_snoc {p : Nat} {out : List Entry} {e : Entry} (h : chainFrom p out) (he : e.1 = endFrom p out) :
@@ -48,13 +38,13 @@ theorem endFrom_snoc (p : Nat) (out : List Entry) (e : Entry) : endFrom p (out +
   | nil => simp [endFrom]
   | cons x xs ih => simp only [List.cons_append, endFrom]; exact ih _
 
-theorem seq_finish {s : St} {c : RCtx} (hr : s.raised = [] → chainFrom 0 s.out ∧ c.start = endFrom 0 s.out)
-    (hpos : s.realpos = c.start + c.acc.length) : Seq (finish s c) := by
+theorem seq_finish {s : St} {c : RCtx} (hr : s.raised = [] → chainFrom 0 s.out ∧ c.start = endFrom 0 s.out) :
+    Seq (finish s c) := by
   intro hrz
   obtain ⟨h1, h2⟩ := hr hrz
   refine ⟨chainFrom_snoc h1 h2, ?_⟩
-  show s.realpos = endFrom 0 (s.out ++ [(c.start, c.want, c.acc)])
-  rw [endFrom_snoc, hpos, h2]
+  show c.start + (resultOf c).length = endFrom 0 (s.out ++ [(c.start, c.want, resultOf c)])
+  rw [endFrom_snoc, h2]
 
 theorem seq_advance : ∀ (fuel : Nat) (s : St) (c : RCtx), Base s → CtxOK s.file s.realpos c →
     (s.raised = [] → chainFrom 0 s.out ∧ c.start = endFrom 0 s.out) → Seq (advance fuel s c) := by
@@ -66,10 +56,10 @@ theorem seq_advance : ∀ (fuel : Nat) (s : St) (c : RCtx), Base s → CtxOK s.f
     unfold advance
     by_cases hm : wantMet c = true
     · simp only [hm, if_true]
-      exact seq_finish hr hc.2.1
+      exact seq_finish hr
     · have hm' : wantMet c = false := by simpa using hm
       simp only [hm', Bool.false_eq_true, if_false]
-      obtain ⟨hsz, hszw⟩ := reqSize_ok hb.pos hm' hc.2.2
+      have hsz := reqSize_ok hb.pos hm'
       by_cases hp : s.prefetching = true
       · simp only [hp, if_true]
         cases hib : inBuffers s.bufs s.realpos with
@@ -91,9 +81,7 @@ theorem seq_advance : ∀ (fuel : Nat) (s : St) (c : RCtx), Base s → CtxOK s.f
             · apply isSl_append hsl
               rw [← hpos]; exact t2
             · simp only [List.length_append]; omega
-            · intro w hw'
-              have := hszw w hw'
-              simp only [List.length_append]; omega
+            · trivial
           · exact hr
       · simp only [hp, Bool.false_eq_true, if_false]; intro hz; exact hr hz
 
@@ -108,6 +96,7 @@ theorem seq_afterCheck {s : St} {c : RCtx} (hb : Base s) (hc : CtxOK s.file s.re
 def seqAct : Act → Prop
   | .rOp (.seek _) => False
   | .rOp (.readv _ _) => False
+  | .rOp (.readAt _ _) => False
   | _ => True
 
 theorem asyncResponse_seqframe {s s1 : St} {n : Nat} {r : Resp} (h : asyncResponse s n r = some s1) :
@@ -117,7 +106,8 @@ theorem asyncResponse_seqframe {s s1 : St} {n : Nat} {r : Resp} (h : asyncRespon
   · cases h
   · split at h <;> (cases h; exact ⟨rfl, rfl, rfl⟩)
 
-theorem step_seq {s s' : St} {a : Act} (hi : Inv s) (hs : Seq s) (ha : seqAct a) (h : step s a = some s') : Seq s' := by
+theorem step_seq {s s' : St} {a : Act} (hi : Inv s) (hrb : RbOK s) (hs : Seq s) (ha : seqAct a)
+    (h : step s a = some s') : Seq s' := by
   obtain ⟨hb, hp⟩ := hi
   cases a with
   | serve k =>
@@ -155,9 +145,10 @@ theorem step_seq {s s' : St} {a : Act} (hi : Inv s) (hs : Seq s) (ha : seqAct a)
       cases op with
       | seek off => exact absurd ha (by simp [seqAct])
       | readv ch cap => exact absurd ha (by simp [seqAct])
+      | readAt off want => exact absurd ha (by simp [seqAct])
       | read want =>
         simp only at h; cases h
-        apply seq_advance _ _ _ hb ⟨isSl_nil _ _, by simp, by intro w _; simp⟩
+        apply seq_advance _ _ _ hb ⟨hrb.1, hrb.2 (by rw [hpc]; rfl), trivial⟩
         intro hz
         obtain ⟨h1, h2⟩ := hs hz
         exact ⟨h1, h2⟩
@@ -246,13 +237,11 @@ theorem step_seq {s s' : St} {a : Act} (hi : Inv s) (hs : Seq s) (ha : seqAct a)
               · apply isSl_append h1
                 rw [← h2]; exact hsl
               · simp only [List.length_append]; omega
-              · intro w' hw'
-                have := hsz.2 w' hw'
-                simp only [List.length_append]; omega
+              · trivial
             · exact hs
           | eof =>
             simp only at h; cases h
-            exact seq_finish hs hctx.2.1
+            exact seq_finish (s := { s with s2c := rest }) hs
           | err code =>
             simp only at h; cases h
             intro hz; simp [raiseRead] at hz
@@ -274,10 +263,10 @@ theorem step_seq {s s' : St} {a : Act} (hi : Inv s) (hs : Seq s) (ha : seqAct a)
         show chainFrom 0 s1.out ∧ c.start = endFrom 0 s1.out
         rw [f1]; exact this
 
-theorem init_seq (file : Bytes) (maxReq : Nat) : Seq (init file maxReq) := by
+theorem init_seq (file : Bytes) (maxReq : Nat) (bufsize : Nat := 0) : Seq (init file maxReq bufsize) := by
   intro _; simp [init, chainFrom, endFrom, pcCtx]
 
-theorem run_inv_seq {s : St} (hi : Inv s) (hs : Seq s) (as : List Act) (ha : ∀ a ∈ as, seqAct a) :
+theorem run_inv_seq {s : St} (hi : Inv s) (hrb : RbOK s) (hs : Seq s) (as : List Act) (ha : ∀ a ∈ as, seqAct a) :
     Inv (run s as) ∧ Seq (run s as) := by
   induction as generalizing s with
   | nil => exact ⟨hi, hs⟩
@@ -285,10 +274,10 @@ theorem run_inv_seq {s : St} (hi : Inv s) (hs : Seq s) (as : List Act) (ha : ∀
     simp only [run]
     have ha' : ∀ b ∈ as, seqAct b := fun b hb => ha b (List.mem_cons_of_mem _ hb)
     cases hst : step s a with
-    | none => simpa using ih hi hs ha'
+    | none => simpa using ih hi hrb hs ha'
     | some s' =>
       simp only [Option.getD_some]
-      exact ih (step_inv hi hst) (step_seq hi hs (ha a (List.mem_cons_self ..)) hst) ha'
+      exact ih (step_inv hi hrb hst) (step_rb hi hrb hst) (step_seq hi hrb hs (ha a (List.mem_cons_self ..)) hst) ha'
 
 /-- consecutive exact reads concatenate to a slice of the file -/
 theorem chain_concat {file : Bytes} : ∀ (out : List Entry) (p : Nat), chainFrom p out →
